@@ -122,10 +122,6 @@ theorem mem_pairs2 {l : List Nat} (h : l.Pairwise (· < ·)) {a b : Nat} :
       · have := h.1 a ha; omega
       · exact Or.inr ⟨ha, hb, hab⟩
 
-theorem rangeN_one_sorted (n : Nat) : (rangeN 1 (n + 1)).Pairwise (· < ·) := by
-  rw [rangeN_one]
-  exact List.Pairwise.map _ (fun a b h => by omega) List.pairwise_lt_range
-
 theorem mem_pairs2_rangeN {n a b : Nat} :
     (a, b) ∈ pairs2 (rangeN 1 (n + 1)) ↔ 1 ≤ a ∧ a < b ∧ b ≤ n := by
   rw [mem_pairs2 (rangeN_one_sorted n), mem_rangeN_one, mem_rangeN_one]
@@ -536,6 +532,196 @@ theorem domset_alt_complete (G : SimpleG) (hG : GoodGraph G) (d : Nat) (S : List
     have r1 := rank_pos hα
     have r2 := rank_le S v
     exact ⟨rank S v, r1, by omega, by rw [mVar, domAssign_M h1 r1 (by omega)]; simp [hα]⟩
+
+/-! ### well-formedness -/
+
+/-- literal `l` is legal in a formula with `N` variables -/
+def LitOk (N : Nat) (l : Int) : Prop := l ≠ 0 ∧ l.natAbs ≤ N
+
+theorem litOk_dId {V d v : Nat} (h1 : 1 ≤ v) (h2 : v ≤ V) :
+    LitOk (V + V * d) (dId V v) ∧ LitOk (V + V * d) (-(dId V v)) := by
+  rw [dId_eq V v h1]
+  refine ⟨⟨by omega, ?_⟩, ⟨by omega, ?_⟩⟩
+  · simp only [Int.natAbs_natCast]; omega
+  · simp only [Int.natAbs_neg, Int.natAbs_natCast]; omega
+
+theorem litOk_mId {V d v i : Nat} (h1 : 1 ≤ v) (h2 : v ≤ V) (hi1 : 1 ≤ i) (hid : i ≤ d) :
+    LitOk (V + V * d) (mId V d v i) ∧ LitOk (V + V * d) (-(mId V d v i)) := by
+  rw [mId_eq]
+  have hlt := mapId_lt (s := V + 1) h1 h2 hi1 hid
+  have hge := mapId_ge (V + 1) d v i
+  refine ⟨⟨by omega, ?_⟩, ⟨by omega, ?_⟩⟩
+  · simp only [Int.natAbs_natCast]; omega
+  · simp only [Int.natAbs_neg, Int.natAbs_natCast]; omega
+
+theorem litOk_mapRow {V d v : Nat} (h1 : 1 ≤ v) (h2 : v ≤ V) :
+    ∀ l ∈ mapRow (V + 1) d v, LitOk (V + V * d) l := by
+  intro l hl
+  simp only [mapRow, List.mem_map, mem_rangeN_one] at hl
+  obtain ⟨i, hi, rfl⟩ := hl
+  exact (litOk_mId h1 h2 hi.1 hi.2).1
+
+theorem litOk_mapCol {V d i : Nat} (hi1 : 1 ≤ i) (hid : i ≤ d) :
+    ∀ l ∈ mapCol (V + 1) V d i, LitOk (V + V * d) l := by
+  intro l hl
+  simp only [mapCol, List.mem_map, mem_rangeN_one] at hl
+  obtain ⟨v, hv, rfl⟩ := hl
+  exact (litOk_mId hv.1 hv.2 hi1 hid).1
+
+theorem domsetF_nvars (G : SimpleG) (d : Nat) (alt : Bool) :
+    (domsetF G d alt).nvars = G.n + G.n * d := by
+  by_cases hV : G.n = 0
+  · have : domsetF G d alt = ⟨0, []⟩ := by unfold domsetF; simp [hV]
+    rw [this, hV]; simp
+  · rw [domsetF, if_neg hV]
+
+theorem domsetF_wf (G : SimpleG) (hG : GoodGraph G) (d : Nat) (alt : Bool) : (domsetF G d alt).WF := by
+  intro c hc l hl
+  rw [domsetF_nvars]
+  change LitOk _ l
+  by_cases hV : G.n = 0
+  · have : domsetF G d alt = ⟨0, []⟩ := by unfold domsetF; simp [hV]
+    rw [this] at hc; simp at hc
+  · rw [domsetF, if_neg hV] at hc
+    simp only [List.mem_append] at hc
+    rcases hc with (((hc | hc) | hc) | hc) | hc
+    · -- part 1
+      cases alt
+      · simp only [Bool.false_eq_true, if_false, List.mem_map, mem_rangeN_one] at hc
+        obtain ⟨i, hi, rfl⟩ := hc
+        exact litOk_mapCol hi.1 hi.2 l hl
+      · simp only [if_true, List.mem_flatMap, List.mem_map, mem_rangeN_one] at hc
+        obtain ⟨⟨u, v⟩, hp, i, hi, rfl⟩ := hc
+        rw [mem_pairs2_rangeN] at hp
+        simp only [Con.lits, List.mem_cons, List.not_mem_nil, or_false] at hl
+        rcases hl with rfl | rfl | rfl | rfl
+        · exact (litOk_dId hp.1 (by omega)).2
+        · exact (litOk_dId (by omega) hp.2.2).2
+        · exact (litOk_mId hp.1 (by omega) hi.1 hi.2).2
+        · exact (litOk_mId (by omega) hp.2.2 hi.1 hi.2).2
+    · -- part 2
+      cases alt
+      · simp only [Bool.false_eq_true, if_false, List.mem_flatMap] at hc
+        obtain ⟨⟨u1, u2⟩, hp, ⟨i1, i2⟩, hq, hc⟩ := hc
+        rw [mem_pairs2_rangeN] at hp
+        rw [mem_prod2, mem_rangeN_one, mem_rangeN_one] at hq
+        split at hc
+        · simp only [List.mem_cons, List.not_mem_nil, or_false] at hc
+          subst hc
+          simp only [Con.lits, List.mem_cons, List.not_mem_nil, or_false] at hl
+          rcases hl with rfl | rfl
+          · exact (litOk_mId hp.1 (by omega) hq.1.1 hq.1.2).2
+          · exact (litOk_mId (by omega) hp.2.2 hq.2.1 hq.2.2).2
+        · simp at hc
+      · simp only [if_true, List.mem_flatMap, List.mem_map, mem_rangeN_one] at hc
+        obtain ⟨v, hv, ⟨i, j⟩, hp, rfl⟩ := hc
+        rw [mem_pairs2_rangeN] at hp
+        simp only [Con.lits, List.mem_cons, List.not_mem_nil, or_false] at hl
+        rcases hl with rfl | rfl | rfl
+        · exact (litOk_dId hv.1 hv.2).2
+        · exact (litOk_mId hv.1 hv.2 hp.1 (by omega)).2
+        · exact (litOk_mId hv.1 hv.2 (by omega) hp.2.2).2
+    · -- part 3
+      cases alt
+      · simp only [Bool.false_eq_true, if_false, List.mem_flatMap, List.mem_map, mem_rangeN_one] at hc
+        obtain ⟨i, hi, v, hv, rfl⟩ := hc
+        simp only [Con.lits, List.mem_cons, List.not_mem_nil, or_false] at hl
+        rcases hl with rfl | rfl
+        · exact (litOk_mId hv.1 hv.2 hi.1 hi.2).2
+        · exact (litOk_dId hv.1 hv.2).1
+      · simp at hc
+    · -- part 4
+      simp only [List.mem_map, mem_rangeN_one] at hc
+      obtain ⟨v, hv, rfl⟩ := hc
+      simp only [Con.lits, List.mem_cons] at hl
+      rcases hl with rfl | hl
+      · exact (litOk_dId hv.1 hv.2).2
+      · exact litOk_mapRow hv.1 hv.2 l hl
+    · -- part 5
+      simp only [List.mem_map] at hc
+      obtain ⟨N, hN, rfl⟩ := hc
+      obtain ⟨v, h1, h2, rfl⟩ := mem_uniqueNeighborhoods.1 hN
+      simp only [Con.lits, List.mem_map] at hl
+      obtain ⟨u, hu, rfl⟩ := hl
+      have hr := closedNbr_range hG h1 h2 hu
+      exact (litOk_dId hr.1 hr.2).1
+
+/-! ### tiling -/
+
+/-- every closed neighbourhood contains exactly one chosen vertex -/
+def TilingSpec (G : SimpleG) (α : Assign) : Prop :=
+  ∀ v, 1 ≤ v → v ≤ G.n → (v :: G.nbrs v).countP (fun u => α u) = 1
+
+theorem count_nbhd (G : SimpleG) (hG : GoodGraph G) (α : Assign) {v : Nat} (h1 : 1 ≤ v) (h2 : v ≤ G.n) :
+    count α ((closedNbr G v).map (dId G.n)) = (v :: G.nbrs v).countP (fun u => α u) := by
+  unfold count
+  rw [List.countP_map]
+  have hperm : (closedNbr G v).Perm (v :: G.nbrs v) := sortNat_perm _
+  rw [← hperm.countP_eq]
+  apply List.countP_congr
+  intro u hu
+  have hr := closedNbr_range hG h1 h2 hu
+  simp only [Function.comp, litHolds_dId α _ _ hr.1]
+
+theorem tiling_holds_iff (G : SimpleG) (hG : GoodGraph G) (α : Assign) :
+    (tiling G).holds α = true ↔ TilingSpec G α := by
+  unfold Formula.holds tiling TilingSpec
+  simp only [List.all_map, List.all_eq_true, Function.comp, Con.holds, Op.denote, decide_eq_true_eq]
+  constructor
+  · intro h v h1 h2
+    have := h (closedNbr G v) (mem_uniqueNeighborhoods.2 ⟨v, h1, h2, rfl⟩)
+    rw [count_nbhd G hG α h1 h2] at this
+    omega
+  · intro h N hN
+    obtain ⟨v, h1, h2, rfl⟩ := mem_uniqueNeighborhoods.1 hN
+    rw [count_nbhd G hG α h1 h2, h v h1 h2]
+    rfl
+
+theorem tiling_wf (G : SimpleG) (hG : GoodGraph G) : (tiling G).WF := by
+  intro c hc l hl
+  simp only [tiling, List.mem_map] at hc
+  obtain ⟨N, hN, rfl⟩ := hc
+  obtain ⟨v, h1, h2, rfl⟩ := mem_uniqueNeighborhoods.1 hN
+  simp only [Con.lits, List.mem_map] at hl
+  obtain ⟨u, hu, rfl⟩ := hl
+  have hr := closedNbr_range hG h1 h2 hu
+  rw [dId_eq _ _ hr.1]
+  have : (tiling G).nvars = G.n := rfl
+  rw [this]
+  constructor
+  · omega
+  · simp only [Int.natAbs_natCast]; exact hr.2
+
+/-- `S` is a set of vertices meeting every closed neighbourhood exactly once -/
+def IsTiling (G : SimpleG) (S : List Nat) : Prop :=
+  S.Nodup ∧ (∀ s ∈ S, 1 ≤ s ∧ s ≤ G.n) ∧
+  ∀ v, 1 ≤ v → v ≤ G.n → (v :: G.nbrs v).countP (fun u => decide (u ∈ S)) = 1
+
+theorem tiling_sound (G : SimpleG) (hG : GoodGraph G) (α : Assign) (h : TilingSpec G α) :
+    IsTiling G (domOf G α) := by
+  refine ⟨(rangeN_one_nodup G.n).filter _, fun s hs => ?_, fun v h1 h2 => ?_⟩
+  · have := mem_domOf.1 hs; exact ⟨this.1, this.2.1⟩
+  · rw [← h v h1 h2]
+    apply List.countP_congr
+    intro u hu
+    have hr := closedNbr_range hG h1 h2 (mem_closedNbr.2 (List.mem_cons.1 hu))
+    simp only [decide_eq_true_eq, mem_domOf]
+    constructor
+    · intro h; exact h.2.2
+    · intro h; exact ⟨hr.1, hr.2, h⟩
+
+theorem tiling_complete (G : SimpleG) (S : List Nat) (h : IsTiling G S) :
+    TilingSpec G (fun u => decide (u ∈ S)) := h.2.2
+
+/-! ### the concrete example -/
+
+theorem exG_dominating : Dominating exG [1, 4, 6] := by
+  refine ⟨by decide, by decide, fun v h1 h2 => ?_⟩
+  rcases exG_vertices h1 h2 with rfl | rfl | rfl | rfl | rfl | rfl <;> decide
+
+theorem exG_tiling : IsTiling exG [1, 4, 6] := by
+  refine ⟨by decide, by decide, fun v h1 h2 => ?_⟩
+  rcases exG_vertices h1 h2 with rfl | rfl | rfl | rfl | rfl | rfl <;> decide
 
 end Fam
 end Cnfgen
